@@ -119,7 +119,8 @@ func (req *Request) parse(con *Connection) {
 		req.headers.http_headers_add(key, value)
 	}
 	//剩下到就是 body
-	req.body = p
+	// p still starts with the blank line that ends the header block
+	req.body = strings.TrimPrefix(p, "\r\n")
 }
 
 //GetMethod d
